@@ -1043,7 +1043,8 @@ static const uint8_t *unmarshal_one_def(
 
         /* Unmarshal closure bitset if needed */
         if (def->flags & JANET_FUNCDEF_FLAG_HASCLOBITSET) {
-            int32_t n = (def->slotcount + 31) >> 5;
+            /* slotcount comes from the image and is only verified below: no signed overflow */
+            int32_t n = (int32_t)(((uint32_t) def->slotcount + 31) >> 5);
             def->closure_bitset = janet_malloc(sizeof(uint32_t) * (size_t) n);
             if (NULL == def->closure_bitset) {
                 JANET_OUT_OF_MEMORY;
